@@ -5,24 +5,49 @@ use crate::stubs::{any_bool, no, yes};
 use succinctly::json::pfsm_tables::{PfsmState, PHI_TABLE, TRANSITION_TABLE};
 use succinctly::json::{simd, simple, standard};
 
-/// Packed LSB-first bit sink with a fixed capacity (the oracle's own writer).
-struct Bits<const W: usize> {
-    w: [u64; W],
+/// The oracle's bit sequences, one `bool` per bit (no packing: packing needs
+/// shifts and indices by a symbolic amount, which dominate the SAT encoding).
+struct Bits<const M: usize> {
+    b: [bool; M],
     n: usize,
 }
-impl<const W: usize> Bits<W> {
+impl<const M: usize> Bits<M> {
     fn new() -> Self {
-        Bits { w: [0; W], n: 0 }
+        Bits { b: [false; M], n: 0 }
     }
-    fn push(&mut self, b: bool) {
-        if b {
-            self.w[self.n / 64] |= 1u64 << (self.n % 64);
-        }
+    fn push(&mut self, x: bool) {
+        self.b[self.n] = x;
         self.n += 1;
     }
-    fn words(&self) -> usize {
-        (self.n + 63) / 64
-    }
+}
+
+/// Bit k of a packed word vector, reading the word through a concrete index.
+fn word_bit(w: &[u64], k: usize) -> bool {
+    let word = match k / 64 {
+        0 => {
+            if w.len() > 0 {
+                w[0]
+            } else {
+                0
+            }
+        }
+        1 => {
+            if w.len() > 1 {
+                w[1]
+            } else {
+                0
+            }
+        }
+        2 => {
+            if w.len() > 2 {
+                w[2]
+            } else {
+                0
+            }
+        }
+        _ => 0,
+    };
+    (word >> (k % 64)) & 1 == 1
 }
 
 #[derive(Clone, Copy, PartialEq)]
@@ -75,6 +100,7 @@ fn step_standard(s: S, c: u8) -> (S, bool, bool, bool) {
 }
 
 fn spec_standard<const N: usize, const WI: usize, const WB: usize>(t: &[u8; N]) -> (Bits<WI>, Bits<WB>, S) {
+    // WI >= N interest bits, WB >= 2N BP bits
     let mut ib = Bits::<WI>::new();
     let mut bp = Bits::<WB>::new();
     let mut s = S::Json;
@@ -157,22 +183,21 @@ fn st_simple(s: simple::State) -> S {
     }
 }
 
-fn same_words<const W: usize>(got: &[u64], want: &Bits<W>) {
-    assert!(got.len() == want.words());
-    let mut i = 0;
-    while i < W {
-        if i < got.len() {
-            assert!(got[i] == want.w[i]);
-        }
-        i += 1;
-    }
+/// The packed vector `got` spells exactly the oracle's bit sequence: right word
+/// count, every bit equal (for an arbitrary bit index), nothing set past the end.
+fn same_bits<const M: usize>(got: &[u64], want: &Bits<M>) {
+    assert!(got.len() == (want.n + 63) / 64);
+    let k: usize = kani::any();
+    kani::assume(k < M + 64);
+    let expect = k < want.n && want.b[if k < M { k } else { 0 }];
+    assert!(word_bit(got, k) == expect);
 }
 
 macro_rules! check_std {
     ($idx:expr, $ib:expr, $bp:expr, $s:expr) => {{
         let x = $idx;
-        same_words(&x.ib, &$ib);
-        same_words(&x.bp, &$bp);
+        same_bits(&x.ib, &$ib);
+        same_bits(&x.bp, &$bp);
         assert!(st_std(x.state) == $s);
         core::mem::forget(x);
     }};
@@ -180,8 +205,8 @@ macro_rules! check_std {
 macro_rules! check_simple {
     ($idx:expr, $ib:expr, $bp:expr, $s:expr) => {{
         let x = $idx;
-        same_words(&x.ib, &$ib);
-        same_words(&x.bp, &$bp);
+        same_bits(&x.ib, &$ib);
+        same_bits(&x.bp, &$bp);
         assert!(st_simple(x.state) == $s);
         core::mem::forget(x);
     }};
@@ -190,6 +215,7 @@ macro_rules! check_simple {
 // ---- PFSM tables: every (state, byte) -------------------------------------------------
 
 #[kani::proof]
+#[kani::stub(alloc::vec::Vec::push, crate::stubs::push_no_grow)]
 #[kani::unwind(6)]
 fn c05_pfsm_tables() {
     let b: u8 = kani::any();
@@ -224,13 +250,14 @@ fn c05_pfsm_tables() {
 macro_rules! short {
     ($name:ident, $n:expr) => {
         #[kani::proof]
+        #[kani::stub(alloc::vec::Vec::push, crate::stubs::push_no_grow)]
         #[kani::unwind(12)]
         fn $name() {
             let t: [u8; $n] = kani::any();
-            let (ib, bp, s) = spec_standard::<$n, 1, 1>(&t);
+            let (ib, bp, s) = spec_standard::<$n, { $n }, { 2 * $n }>(&t);
             check_std!(standard::build_semi_index_scalar(&t), ib, bp, s);
             check_std!(standard::build_semi_index(&t), ib, bp, s);
-            let (ib2, bp2, s2) = spec_simple::<$n, 1, 1>(&t);
+            let (ib2, bp2, s2) = spec_simple::<$n, { $n }, { 2 * $n }>(&t);
             check_simple!(simple::build_semi_index(&t), ib2, bp2, s2);
             kani::cover!(s == S::Esc);
             kani::cover!(s == S::Val && bp.n >= 6);
@@ -247,28 +274,30 @@ short!(c05_short_len10, 10);
 macro_rules! simd_std {
     ($name:ident, $n:expr, $wb:expr, $build:path, $($stub:meta),*) => {
         #[kani::proof]
+        #[kani::stub(alloc::vec::Vec::push, crate::stubs::push_no_grow)]
         #[kani::unwind(5)]
         $(#[$stub])*
         fn $name() {
             let t: [u8; $n] = kani::any();
-            let (ib, bp, s) = spec_standard::<$n, 2, $wb>(&t);
+            let (ib, bp, s) = spec_standard::<$n, { $n }, { 2 * $n }>(&t);
             check_std!($build(&t), ib, bp, s);
-            kani::cover!(s == S::Str && t[31] == b'\\');
-            kani::cover!(bp.n > 64);
+            kani::cover!(s == S::Str && t[$n - 2] == b'\\');
+            kani::cover!(bp.n > $n / 2);
         }
     };
 }
 macro_rules! simd_simple {
     ($name:ident, $n:expr, $wb:expr, $build:path, $($stub:meta),*) => {
         #[kani::proof]
+        #[kani::stub(alloc::vec::Vec::push, crate::stubs::push_no_grow)]
         #[kani::unwind(5)]
         $(#[$stub])*
         fn $name() {
             let t: [u8; $n] = kani::any();
-            let (ib, bp, s) = spec_simple::<$n, 2, $wb>(&t);
+            let (ib, bp, s) = spec_simple::<$n, { $n }, { 2 * $n }>(&t);
             check_simple!($build(&t), ib, bp, s);
             kani::cover!(s == S::Esc);
-            kani::cover!(bp.n > 64);
+            kani::cover!(bp.n > $n / 2);
         }
     };
 }
@@ -311,6 +340,7 @@ simd_simple!(c05_dispatch_simple_34, 34, 2, simd::build_semi_index_simple,
     kani::stub(core::arch::x86_64::_mm_sub_epi8, models::mm_sub_epi8));
 
 #[kani::proof]
+#[kani::stub(alloc::vec::Vec::push, crate::stubs::push_no_grow)]
 #[kani::unwind(12)]
 fn c05_witness_must_fail() {
     let t: [u8; 4] = kani::any();
@@ -319,3 +349,5 @@ fn c05_witness_must_fail() {
     assert!(x.state != standard::State::InString);
     core::mem::forget(x);
 }
+
+
